@@ -315,7 +315,8 @@ Definition cu_tx (s : cu_state) (e : cu_env) (u : cu_update) : option (cu_state 
   match u with
   | UNoop => Some (s, [])
 
-  | UMailboxCreated rid name =>
+  | UMailboxCreated rid name0 =>
+      let name := cu_canon_name name0 in       (* user.joinMailboxName: INBOX is stored with its canonical spelling *)
       if rid =? cu_recovery_rid then None
       else match cu_find_mb_rid s rid with
            | Some _ => Some (s, [])
@@ -343,12 +344,13 @@ Definition cu_tx (s : cu_state) (e : cu_env) (u : cu_update) : option (cu_state 
                      [SuMailboxDeleted (mb_id m)])
            end
 
-  | UMailboxUpdated rid name =>
+  | UMailboxUpdated rid name0 =>
+      let name := cu_canon_name name0 in       (* the comparison is EXACT: a change of letter case is a rename *)
       if rid =? cu_recovery_rid then None
       else match cu_find_mb_rid s rid with
            | None => Some (s, [])
            | Some m =>
-               if mb_name m =? cu_canon_name name then Some (s, [])
+               if mb_name m =? name then Some (s, [])
                else if existsb (fun x => (mb_name x =? name) && negb (mb_rid x =? rid)) (st_mb s) then None
                else Some (cu_with_mb s (map (fun x => if mb_rid x =? rid
                                                       then mkMb (mb_id x) (mb_rid x) name (mb_uidv x) (mb_sub x) else x)
